@@ -1,6 +1,8 @@
 (* C13 - statements only. *)
 From GVL Require Import NList.
+From GVG Require Import Skel.
 From GV_lifecycle Require Import Model Proofs.
+From GV_lifecycle Require Reporter ReporterProofs.
 Open Scope N_scope.
 
 (* From every reachable state - any number of connections and sessions, idle, mid-handshake, playing or
@@ -120,3 +122,42 @@ Example C13_example_seed :
   /\ afirst_bad a0 [CbConnOpen 0; CbSessOpen 0 0; CbPktB 0 0; CbConnClose 0] 0 = Some 3
   /\ afirst_bad a0 [CbConnOpen 0; CbSessOpen 0 0; CbPktB 0 0; CbPktE 0; CbSB 0; CbSE 0; CbSessClose 0; CbConnClose 0] 0 = None.
 Proof. repeat split. Qed.
+
+(* ---------------- the RTCP report goroutines (pkg/rtpreceiver, pkg/rtpsender): Close always returns ----------------
+   Reporter.v is an interleaving model of Close / Reporter.run / report (one atomic action of one thread per step, arbitrary
+   scheduler): the closer, the report goroutine with its select over the ticker and terminate, the mutex of report(),
+   and the users of the mutex (ProcessPacket, Stats, ...).  For a Receiver or a Sender, ANY number of ticks delivered at
+   any moments, ANY amount of user activity and ANY schedule: the schedule is finite, and a state in which no thread
+   can move is a state in which Close has been called and has returned, the goroutine has exited, the mutex is free. *)
+Theorem C13_report_goroutine_close_always_returns : forall (sender : bool) (nticks nusers : nat) (ls : list Reporter.label) (c : Reporter.cfg),
+  Reporter.run false ls (Reporter.init sender nticks nusers) = Some c ->
+  (length ls <= Reporter.measure (Reporter.init sender nticks nusers))%nat /\
+  (Reporter.stuck false c -> Reporter.kp c = Reporter.KDone /\ Reporter.rp c = Reporter.RDone /\ Reporter.done c = true /\ Reporter.owner c = Reporter.Free /\ Reporter.uin c = false).
+Proof. exact ReporterProofs.close_always_returns. Qed.
+Print Assumptions C13_report_goroutine_close_always_returns.
+
+(* ... and in every state satisfying the invariant (all reachable states do) in which Close has not returned yet,
+   some thread can move *)
+Theorem C13_report_goroutine_close_never_blocks : forall c, Reporter.Inv c -> Reporter.kp c <> Reporter.KDone ->
+  exists l c', Reporter.step false l c = Some c'.
+Proof. exact ReporterProofs.close_never_blocks_forever. Qed.
+Print Assumptions C13_report_goroutine_close_never_blocks.
+
+(* the model was written from these synchronisation skeletons; tools/syncskel regenerates them from
+   pkg/rtpreceiver/receiver.go and pkg/rtpsender/sender.go on every Reporter.run (GVG.Skel) *)
+Theorem C13_report_goroutine_skeleton_is_the_code :
+  skel_recv_close = Reporter.expected_close /\ skel_send_close = Reporter.expected_close /\
+  skel_recv_run = Reporter.expected_recv_run /\ skel_send_run = Reporter.expected_send_run.
+Proof. exact ReporterProofs.skel_reporter_matches. Qed.
+Print Assumptions C13_report_goroutine_skeleton_is_the_code.
+
+(* why the structure matters: if Close took the mutex and kept it while waiting for Reporter.done (seeded change C13-4), a tick
+   taken just before Close leaves the goroutine waiting for the mutex that Close holds *)
+Example C13_example_held_mutex_deadlocks : exists c, Reporter.run true [Reporter.LTick; Reporter.LRepWake; Reporter.LClose] (Reporter.init false 1%nat 0%nat) = Some c /\
+  Reporter.stuckb true c = true /\ Reporter.kp c = Reporter.KWait /\ Reporter.rp c = Reporter.RLock /\ Reporter.owner c = Reporter.OCloser.
+Proof. exact ReporterProofs.held_mutex_deadlocks. Qed.
+(* a complete Reporter.run of the real protocol: tick, report under the mutex while a user waits its turn, Close, exit *)
+Example C13_example_reporter_run : exists c,
+  Reporter.run false [Reporter.LTick; Reporter.LRepWake; Reporter.LRep; Reporter.LClose; Reporter.LRep; Reporter.LUser; Reporter.LUser; Reporter.LRep; Reporter.LRepTerm; Reporter.LClose] (Reporter.init false 1%nat 1%nat) = Some c /\
+  Reporter.stuckb false c = true /\ Reporter.kp c = Reporter.KDone.
+Proof. eexists. split; [vm_compute; reflexivity|]. split; vm_compute; reflexivity. Qed.
